@@ -10,6 +10,7 @@ import threading
 from core.engine import Property, F
 from core.prng import Rng
 
+PERR_BASE = 500000           # model error id of "item i cannot be pickled" = PERR_BASE + id
 NONE_CODE = 1000003          # how a `None` OUTPUT of the wrapped filter is written in the Lean model
 SWALLOWED = ("AssertionError", "EOFError", "BrokenPipeError")
 PLAIN_ERRS = ("ValueError", "TypeError", "KeyError", "RuntimeError", "C08Error", "ZeroDivisionError",
@@ -25,6 +26,8 @@ def stop_iteration_surfaced(oc):
 
 def err_matches(case, model_err, oc):
     """(A): the error the model says is raised (item id) against what the caller got"""
+    if model_err >= PERR_BASE:
+        return oc.get("type") == "CobaException" and "pickle" in (oc.get("msg") or "")
     it = case["items"][model_err - case.get("base", 0)]
     if it.get("err") == "StopIteration":
         return stop_iteration_surfaced(oc)
@@ -43,6 +46,13 @@ def raising(case):
     return [i for i, it in enumerate(case["items"]) if it.get("err")]
 
 
+def unpicklable(case):
+    """items the loader cannot pickle (irrelevant on the in-process path, which does not pickle)"""
+    if inprocess(case):
+        return []
+    return [i for i, it in enumerate(case["items"]) if it.get("unpick")]
+
+
 def has_none(case):
     return any(o is None for it in case["items"] for o in it["outs"])
 
@@ -55,7 +65,8 @@ def model_cfg(case):
     b = case.get("base", 0)
     return {"n": case["n"], "m": case["m"],
             "items": [{"id": b + i, "outs": [NONE_CODE if o is None else o for o in it["outs"]],
-                       "err": (b + i if it.get("err") else None)} for i, it in enumerate(case["items"])]}
+                       "err": (b + i if it.get("err") else None),
+                       "perr": (PERR_BASE + b + i if it.get("unpick") else None)} for i, it in enumerate(case["items"])]}
 
 
 def calls_of(case):
@@ -110,8 +121,10 @@ def err_id(exc):
 
 
 def make_items(case):
-    n, b = len(case["items"]), case.get("base", 0)
-    return iter(range(b, b + n)) if case.get("iter") else list(range(b, b + n))
+    from props import c08_filters as FL
+    b = case.get("base", 0)
+    xs = [(FL.BadInt(b + i) if it.get("unpick") else b + i) for i, it in enumerate(case["items"])]
+    return iter(xs) if case.get("iter") else xs
 
 
 # ------------------------------------------------------------------ running the real code
@@ -170,7 +183,7 @@ def run_scheduled(case, prefix=None, mp=None):
         if mp is None:
             mp = build(case, FL.SpecFilter(full_table(case)))
         if not case.get("wrap"):
-            sched.np_probe = lambda: mp._n_procs
+            sched.np_probe = lambda: getattr(mp, "_n_procs", None)
         gen = mp.filter(make_items(case))
         try:
             outs, outcome = consume(gen, case, on_abandon=lambda: sched.act("cAbandon"))
@@ -192,15 +205,66 @@ def run_scheduled(case, prefix=None, mp=None):
 
 
 def run_history_scheduled(case):
-    """2-3 consecutive filter() calls on the SAME Multiprocessor object; one scheduler per call (whatever an earlier call
-    left running in the background is cut off when that call is over).  -> list of runs, one per call"""
-    from props import c08_filters as FL
-    mp = build(case, FL.SpecFilter(full_table(case)))
+    """2-3 consecutive filter() calls on the SAME Multiprocessor object under ONE scheduler: whatever an earlier call left
+    running in the background (parked or still working workers, their callback threads) stays scheduled during the later
+    calls, exactly like the daemon threads/processes of the real code.  Every logged action carries the index `c` of the
+    call it belongs to.  -> list of runs, one per call (run["stale"] = callbacks of EARLIER calls that ran during this call)"""
+    from props import c08_sched as S, c08_filters as FL
+    import coba.pipes.multiprocessing as cpm
+    import coba.pipes.lines as lines
+    from coba.context import CobaContext
+    cs = calls_of(case)
+    sc = case.get("sched") or {}
+    rng = Rng(sc.get("seed", 0), "c08-sched") if not sc.get("det") else None
+    sched = S.Sched(S.PolicyChooser(rng, sc.get("policy"), sc.get("prefix")),
+                    step_limit=6000 * len(cs) + 400 * sum(len(c["items"]) for c in cs), wall=40.0)
+    sched.register_main()
+    FP, FT = S.make_fakes(sched, lines.ProcessLine, lines.ThreadLine)
+    saved = (cpm.spawn_context, cpm.MyProcessLine, cpm.ThreadLine)
+    saved_ctx = (CobaContext.logger, CobaContext.cacher, CobaContext.store)
+    del FL.CALLS[:]
     runs = []
-    for c in calls_of(case):
-        runs.append(run_scheduled(c, mp=mp))
-        if runs[-1]["outcome"]["kind"] == "hang":
-            break
+    try:
+        cpm.spawn_context, cpm.MyProcessLine, cpm.ThreadLine = S.FakeContext(sched), FP, FT
+        mp = build(case, FL.SpecFilter(full_table(case)))
+        if not case.get("wrap"):
+            sched.np_probe = lambda: getattr(mp, "_n_procs", None)
+        for k, c in enumerate(cs):
+            if k:
+                sched.next_call()
+            sched.none_code = NONE_CODE if has_none(c) else None
+            obj = {"nprocs": max(0, int(getattr(mp, "_n_procs", 0) or 0)),
+                   "excs": [(err_id(e) if err_id(e) is not None else 0) for e in (getattr(mp, "_exceptions", None) or [])]}
+            gen = mp.filter(make_items(c))
+            try:
+                outs, outcome = consume(gen, c, on_abandon=lambda: sched.act("cAbandon"))
+            except S.Hang as h:
+                outs, outcome = None, {"kind": "hang", "reason": str(h.reason)}
+            if outcome["kind"] != "hang":
+                sched.act("mDone")
+            runs.append({"outs": outs, "outcome": outcome, "obj": obj})
+            if outcome["kind"] == "hang":
+                break
+    finally:
+        cpm.spawn_context, cpm.MyProcessLine, cpm.ThreadLine = saved
+        sched.shutdown()
+        CobaContext.logger, CobaContext.cacher, CobaContext.store = saved_ctx
+    marks = sched.call_marks + [len(sched.log)]
+    percall = collections.defaultdict(collections.Counter)
+    for key, _ in FL.CALLS:
+        parts = key.split("/")
+        percall[int(parts[1]) if len(parts) == 3 else -1][key] += 1
+    for k, run in enumerate(runs):
+        window = sched.log[marks[k]:marks[k + 1]] if k + 1 < len(marks) else []
+        # (A) replays what belongs to this call up to its end; what its left-overs do later happens under the next call's
+        # shared fields (self._load_stopper, self._n_procs) and is judged there
+        run["trace"] = [a for a in window if a.get("c") == k]
+        run["stale"] = [a for a in window if a.get("c", k) < k and a["a"] in ("wCallback", "wRaise")]
+        if run["outs"] is None:
+            outs = [a["x"] for a in run["trace"] if a["a"] == "cGet" and a.get("x", -1) != -1]
+            run["outs"] = [None if o == NONE_CODE else o for o in outs]
+        run["calls"] = dict(percall.get(k, {})) if (k or not inprocess(case)) else {}
+        run.update({"choices": list(sched.choices), "escaped": list(sched.escaped), "steps": sched.steps})
     return runs
 
 
@@ -277,6 +341,7 @@ def judge(case, run):
     exp = collections.Counter(map(enc, expected_outs(case)))
     got = collections.Counter(map(enc, outs))
     rs = raising(case)
+    ups = unpicklable(case)
     base = case.get("base", 0)
     desc = "n=%d m=%d items=%s abandon=%s" % (case["n"], case["m"], short(case["items"]), case.get("abandon"))
     if case.get("call"):
@@ -301,6 +366,10 @@ def judge(case, run):
     if kind in ("closed", "close-raised"):
         if kind == "close-raised":
             fails.append(F("B", "abandoning the output raised %s(%s) (%s)" % (oc["type"], oc["msg"], desc), "abandon-raises"))
+    elif not rs and ups:
+        if kind != "raised" or oc.get("type") != "CobaException" or "pickle" not in (oc.get("msg") or ""):
+            fails.append(F("B", "item(s) %s cannot be pickled, the loader fails, but the call ended with %s %r instead of raising the "
+                           "CobaException about pickling (%s)" % (ups, oc, outs, desc), "pickle-error-not-raised"))
     elif not rs:
         if kind == "raised":
             fails.append(F("B", "no item makes the filter raise, yet the call raised %s(%s) (%s)" % (oc["type"], oc["msg"], desc), "spurious-error"))
@@ -319,6 +388,8 @@ def judge(case, run):
               and case["items"][oc["item"] - base]["err"] == "RuntimeError"):
             fails.append(F("B", "CobaMultiprocessor turned the filter's RuntimeError(%s) into CobaExit (a BaseException): the caller does not get "
                            "that error (%s)" % (oc["msg"], desc), "wrapper-runtimeerror-becomes-cobaexit"))
+        elif ups and oc.get("type") == "CobaException" and "pickle" in (oc.get("msg") or ""):
+            pass        # the loader's pickling error is one of the errors of this call
         elif "StopIteration" in types and stop_iteration_surfaced(oc):
             pass        # exactly "the call raises": PEP 479 turns it into a RuntimeError without the item's identity
         elif case.get("wrap") and "StopIteration" in types and oc.get("type") == "CobaExit" and "StopIteration" in (oc.get("msg") or ""):
@@ -345,7 +416,7 @@ def correspond(case, run, driver):
         fails.append(F("A", "an exception escaped a background thread of the real code: %s" % run["escaped"][0][:300], "A:escaped-exception"))
     if not case["items"]:
         # `if not items: return []` — nothing is started; only the outcome is compared
-        if run["trace"] not in (None, [], [{"a": "mDone"}]) or run["outs"] or oc["kind"] not in ("ok", "closed"):
+        if [a["a"] for a in (run["trace"] or [])] not in ([], ["mDone"]) or run["outs"] or oc["kind"] not in ("ok", "closed"):
             fails.append(F("A", "empty input: expected an immediate empty result, got %s %s" % (run["outs"], oc), "A:empty"))
         return fails, None
     if inprocess(case):
@@ -363,10 +434,15 @@ def correspond(case, run, driver):
     if run["trace"] is None:
         return fails, None
     if case.get("abandon") == 0:
-        if run["trace"] != [{"a": "mDone"}]:
+        if [a["a"] for a in run["trace"]] != ["mDone"]:
             fails.append(F("A", "closing an unstarted generator ran something: %s" % run["trace"][:5], "A:unstarted"))
         return fails, None
-    ans = driver.ask({"op": "trace", "cfg": cfg, "trace": run["trace"]})
+    if any(a["a"] == "putTimeout" for a in run["trace"]):
+        cfg["timeouts"] = True         # some put on the in_queue was given a finite timeout and the scheduler let it expire
+    req = {"op": "trace", "cfg": cfg, "trace": run["trace"]}
+    if run.get("obj") is not None:
+        req["obj"] = run["obj"]        # what the previous call left on the object: the model's `startCall` must not care
+    ans = driver.ask(req)
     if ans["fail"] is not None:
         at = ans["fail"]["at"]
         a = run["trace"][at] if at < len(run["trace"]) else None
@@ -380,6 +456,8 @@ def correspond(case, run, driver):
     got = [enc(o) for o in run["outs"]]
     if not ans["done"]:
         fails.append(F("A", "the call finished but the model is not in its final phase: %s" % json.dumps(ans["state"]), "A:not-done"))
+    elif case.get("wrap") and (ans["wrapped"]["kind"] != ("exit" if oc.get("type") == "CobaExit" else oc["kind"]) or ans["wrapped"]["outs"] != got):
+        fails.append(F("A", "CobaMultiprocessor wrapper: implementation %s %s, model wrapOutcome %s" % (got, oc, json.dumps(ans["wrapped"])), "A:wrapper"))
     elif mo["kind"] != oc["kind"] or mo["outs"] != got or (mo["kind"] == "raised" and not err_matches(case, mo["err"], oc)):
         fails.append(F("A", "outcome differs: implementation %s %s, model %s" % (got, oc, json.dumps(mo)), "A:outcome"))
     if not ans["mu_decreasing"]:
@@ -455,20 +533,23 @@ class C08(Property):
     search_n = 1500
     case_timeout = 300
     workers = 8
-    rule = ("a case = (n_processes 1..4, maxtasksperchild 0..3, 0-10 items each with 0-3 outputs and optionally an error raised after them, "
-            "optional early abandon after k outputs, optional CobaMultiprocessor wrapper, schedule = PRNG seed + role/lineage weights + stickiness "
-            "or an explicit choice prefix); run on the REAL Multiprocessor.filter under the baton scheduler (or with real spawned processes), "
-            "trace replayed through the Lean enabled/step; non-trivial = at least 2 items and a trace of at least 12 steps (or a real-process run); "
-            "distinct by canonical JSON of the case")
+    rule = ("a case = (n_processes 1..4, maxtasksperchild 0..3 (5 for long streams), 0-10 items (up to 50 for long streams stopped early) each with 0-3 outputs, "
+            "optionally an error of 15 kinds raised after them (generator or plain filter), optionally an item that cannot be pickled, optional early abandon after "
+            "k outputs, optional CobaMultiprocessor wrapper, optionally a HISTORY of 2-3 calls on the same Multiprocessor object under one scheduler; schedule = PRNG "
+            "seed + role/lineage weights + stickiness or an explicit choice prefix (DFS)); run on the REAL Multiprocessor.filter under the baton scheduler (or with real "
+            "spawned processes), every call's trace replayed through the Lean enabled/step (extended by the put-timeout action) from startCall/init, outcome compared "
+            "incl. the wrapper's translation; non-trivial = at least 2 items and a trace of at least 12 steps (or a real-process run or a history); distinct by canonical JSON")
     trusted_base = [
-        "thread-based fakes for spawn_context.Queue/Event, MyProcessLine and ThreadLine (harness/props/c08_sched.py): FIFO queues, bounded put blocks, "
-        "a spawned process works on a pickled private copy of its line; the scheduling granularity is queue put/get/get_nowait, event wait, "
-        "thread start/exit and callback entry; each callback body is one atomic step (CPython's GIL: `_n_procs -= 1`, list.append)",
-        "real OS processes, pipes, multiprocessing.Queue feeder threads and pickling are exercised only by the few real-process cases (outcome compared)",
-        "exitcode != 0 (crashed interpreter / missing __main__ guard), read_wait=True, unpicklable items and cloudpickle are not modelled",
+        "thread-based fakes for spawn_context.Queue/Event, MyProcessLine and ThreadLine (harness/props/c08_sched.py): FIFO queues, bounded put blocks, put/get with a "
+        "finite timeout give up when the scheduler says so, join blocks until the thread/process body has ended, a spawned process works on a pickled private copy of "
+        "its line; scheduling granularity = queue put/get/get_nowait, event wait, join, thread start/exit, callback entry; each callback body is one atomic step "
+        "(CPython's GIL: `_n_procs -= 1`, list.append)",
+        "real OS processes, pipes, multiprocessing.Queue feeder threads and pickling are exercised only by the real-process cases (outcome compared)",
+        "NOT in the transition system: exitcode != 0 / _main_err (crashed interpreter, missing __main__ guard), read_wait=True (wait keys), cloudpickle; "
+        "the wrapper's logger/cacher/store marshalling is C01's",
     ]
     assumptions = ["n_processes >= 1", "the wrapped filter's outputs and errors are picklable",
-                   "fix C08-none-output and C08-swallowed-errors applied (open findings C08-F1, C08-F2 on the unchanged tree)"]
+                   "theorems are about the code with fixes C08-per-call-state and C08-wrapper-runtimeerror applied (open findings C08-F4, C08-F3 on the current tree)"]
     partial_theorems = {}
 
     # ---- generators
@@ -540,6 +621,8 @@ class C08(Property):
         r = rng.below(100)
         if r < 40 and items:
             self.add_errors(rng, items, list(PLAIN_ERRS))
+        if items and rng.chance(0.05):
+            items[rng.below(len(items))]["unpick"] = True      # the loader's Pickler fails on this item
         case = {"mode": mode or "sched", "n": n, "m": m, "items": items, "abandon": None}
         tot = len(expected_outs(case))
         if rng.chance(0.22):
@@ -719,6 +802,12 @@ class C08(Property):
                    "history": [{"items": bad3, "abandon": None}, {"items": fine4, "abandon": None}]})
         cs.append({"mode": "real", "n": 1, "m": 5, "abandon": None,
                    "items": [{"outs": [i % 5], "err": ("ValueError" if i == 3 else None), "gen": True} for i in range(40)]})
+        # an item that cannot be pickled: the loader thread dies, its callback records the CobaException and still writes the pills
+        for n, m, bad in ((2, 0, 0), (2, 0, 3), (1, 2, 2), (3, 1, 5)):
+            items = [dict(one(i), unpick=(i == bad)) for i in range(6)]
+            for pol in ("uniform", "loader-slow"):
+                cs.append({"mode": "sched", "n": n, "m": m, "items": items, "abandon": None, "sched": P(pol)})
+        cs.append({"mode": "real", "n": 2, "m": 1, "items": [dict(one(i), unpick=(i == 2)) for i in range(5)], "abandon": None})
         # StopIteration from a plain (non-generator) and from a generator filter: the call must raise (in-process and multi-process)
         for n, m in ((1, 0), (2, 0), (1, 2), (3, 1)):
             for g in (False, True):
@@ -778,6 +867,8 @@ class C08(Property):
             tags.append("shape:fewer-items-than-processes")
         if case["m"] > 0 and case["items"] and len(case["items"]) % case["m"] == 0:
             tags.append("shape:multiple-of-m")
+        if unpicklable(case):
+            tags.append("err:unpicklable-item")
         if has_none(case):
             tags.append("probe:none-output")
         for i in rs:
@@ -809,6 +900,20 @@ class C08(Property):
         kinds = []
         for c, run in zip(cs, runs):
             out = self.verdict(c, run, driver, mode)
+            prev_abandoned = any(cc.get("abandon") is not None for cc in cs[:c.get("call", 0)])
+            if prev_abandoned and run.get("stale") and any(f["kind"] in ("A", "B") for f in out["fails"]):
+                # the one cross-call interference of the real code: a worker left behind by an ABANDONED call ended (by an
+                # error or a pill) during this call and its callback changed the shared self._n_procs / self._exceptions
+                out["fails"] = [dict(f, sig="stale-callback-after-abandon", what="after an abandoned call on the same object, a left-over "
+                                     "worker's callback ran during the next call (%s): " % json.dumps(run["stale"][:2]) + f["what"])
+                                if f["kind"] == "B" else
+                                dict(f, kind="B", sig="stale-callback-after-abandon", what="after an abandoned call on the same object, a left-over "
+                                     "worker's callback changed self._n_procs/_exceptions of the next call (%s); this time the call still ended, "
+                                     "under other schedules it hangs: " % json.dumps(run["stale"][:2]) + f["what"]) if f["kind"] == "A" else f
+                                for f in out["fails"]]
+                agg["tags"].append("ev:stale-callback-after-abandon")
+            elif run.get("stale"):
+                agg["tags"].append("ev:stale-callback-harmless")
             agg["fails"] += out["fails"]
             agg["nontrivial"] = agg["nontrivial"] or out["nontrivial"]
             agg["tags"] += [t for t in out["tags"] if t.startswith(("ev:", "outcome:"))]
